@@ -316,8 +316,11 @@ structure DecodeResult where
   geometry : Geometry
   metadata : Option GeometryMetadata
 
-/-- `Decoder::DecodeBufferToGeometry` for the sequential methods (encoder_method 0) -/
-def decodeGeometry (opts : DecOpts) : DecM DecodeResult := do
+/-- `Decoder::DecodeBufferToGeometry`; the sequential methods (encoder_method 0) are decoded here,
+    `eb` decodes the body of an Edgebreaker mesh stream (encoder_method 1 on meshes), `kd` is
+    `PointCloudKdTreeDecoder`'s `DecodeGeometryData` + `DecodePointAttributes` (encoder_method 1 on point
+    clouds); the complete decoder `decodeGeometry` is assembled in DracoModel/Decoder.lean -/
+def decodeStreamWith (eb kd : DecOpts → DecM Geometry) (opts : DecOpts) : DecM DecodeResult := do
   let h ← decodeHeader
   -- Decoder::GetEncodedGeometryType
   require (h.encoderType < 2)
@@ -331,7 +334,8 @@ def decodeGeometry (opts : DecOpts) : DecM DecodeResult := do
   setVersion (bsVersion h.major h.minor)
   let ver := bsVersion h.major h.minor
   let md ← if ver ≥ bsVersion 1 3 && h.flags / 32768 % 2 == 1 then (do let g ← lift Leaf.decodeGeometryMetadata; pure (some g)) else pure none
-  if h.encoderMethod != 0 then failWith (.unsupported (if isMesh then "edgebreaker" else "kd-tree")) else
+  if h.encoderMethod != 0 && isMesh then (do let g ← eb opts; pure ⟨g, md⟩) else
+  if h.encoderMethod != 0 then (do let g ← kd opts; pure ⟨g, md⟩) else
   if isMesh then
     let (numPoints, faces) ← decodeSeqConnectivity
     let atts ← decodePointAttributesSeq opts numPoints
